@@ -670,7 +670,9 @@ static void iauth_xquery_services_changed(struct conf_node_base *node)
 
             if (base->type == CONF_STRING) {
                 struct conf_node_string *str = set_node_data(jj);
-                iauth_xquery_config_service(str->base.name, str->value);
+                /* An entry that is being removed has no value. */
+                if (str->value)
+                    iauth_xquery_config_service(str->base.name, str->value);
             } /* else unknown type */
         }
 
